@@ -28,7 +28,7 @@ FUNCTIONS = ['BlockRowOperator.__init__/mv/transpose/out_structure/as_matrix', '
              'BlockColumnOperator.__init__/mv/transpose/in_structure/as_matrix', 'AbstractBlockOperator.in_structure/out_structure/reduce',
              'BlockRowBlockDiagonalRule', 'BlockDiagonalBlockColumnRule', 'BlockDiagonalBlockDiagonalRule', 'BlockRowBlockColumnRule']
 BOUNDS = {'quick': 'containers list/tuple/dict/nested/single, arity 1-3, blocks from 8 catalogue kinds on (3,) vectors and 4 kinds on a '
-                   'heterogeneous pytree; seeded 5 block tuples per (kind, container, arity); 60 adjacent products',
+                   'heterogeneous pytree; seeded 5 block tuples per (kind, container, arity); adjacent products: 3 seeded + 1 fixed non-commuting triple per (container, rule pair, arity) stratum',
           'thorough': 'all block tuples of arity <= 2 and seeded arity 3; 400 adjacent products'}
 STUBS = []
 ASSUMPTIONS = ['real arithmetic', 'scalars/diagonals that are inverted are != 0']
@@ -82,12 +82,16 @@ def cases(tier, seed):
             for lk, rk in (('row', 'diag'), ('diag', 'col'), ('diag', 'diag'), ('row', 'col')):
                 lp, rp = POOLS[(fam, lk)], POOLS[(fam, rk)]
                 for ar in (1, 2, 3):
-                    for _ in range(6 if tier == 'quick' else 40):
+                    # stratified: every (container, rule pair, arity) keeps its own draws (no global cut that could drop a stratum)
+                    for _ in range(3 if tier == 'quick' else 25):
                         lt = tuple(L(rnd.choice(lp), i) for i in range(ar))
                         rt = tuple(L(rnd.choice(rp), 10 + i) for i in range(ar))
                         prods.append(('prod', fam, (lk, cont, lt), (rk, cont, rt)))
-    rnd.shuffle(prods)
-    out += prods[: (150 if tier == 'quick' else 1200)]
+                    if ar == 3:
+                        # one well-typed, non-commuting triple per stratum: square dense / diagonal blocks, all different
+                        prods.append(('prod', fam, (lk, cont, (L('A', 0), L('D', 1), L('Tz', 2) if lk == 'row' else L('k', 2))),
+                                      (rk, cont, (L('D', 10), L('A', 11), L('A', 12)))))
+    out += prods
     out.append(('reject',))
     seen, res = set(), []
     for k in out:
